@@ -15,6 +15,7 @@ type row struct {
 	C  string `json:"c"`
 	M2 string `json:"m2"`
 	Op string `json:"op"`
+	Tok string `json:"tok"` // token label of the transition (specs/TokenStream.tla); absent in older exports
 }
 type classRow struct {
 	B int    `json:"b"`
@@ -53,6 +54,7 @@ type Table struct {
 	Aft       int
 	numDone   []bool
 	MaxDepth  int
+	tok       []string // token label per transition, same indexing as next
 }
 
 type export struct {
@@ -90,6 +92,7 @@ func Load(path string) (*Table, error) {
 	}
 	t.nClass = len(t.Classes)
 	t.next = make([]uint16, len(t.Modes)*4*t.nClass)
+	t.tok = make([]string, len(t.next))
 	seen := make([]bool, len(t.next))
 	for _, r := range e.Table {
 		ti, ok := topIdx[r.T]
@@ -106,6 +109,7 @@ func Load(path string) (*Table, error) {
 		}
 		seen[k] = true
 		t.next[k] = uint16(t.ModeIdx[r.M2]<<3 | oi)
+		t.tok[k] = r.Tok
 	}
 	for k, s := range seen {
 		if !s {
@@ -137,6 +141,25 @@ func Load(path string) (*Table, error) {
 		t.numDone[t.ModeIdx[m]] = true
 	}
 	return t, nil
+}
+
+// TokenKinds returns the token kinds TokenStream.tla assigns to the text ("[", "]", "{", "}", "str", "num",
+// "true", "false", "null") and whether the automaton accepts it.
+func (t *Table) TokenKinds(b []byte) ([]string, bool) {
+	st := t.Init()
+	var out []string
+	for _, c := range b {
+		ci := int(t.ByteClass[c])
+		k := (st.Mode*4+st.Top())*t.nClass + ci
+		lab := t.tok[k]
+		if !t.StepClass(&st, ci) {
+			return out, false
+		}
+		if lab != "" {
+			out = append(out, lab)
+		}
+	}
+	return out, t.Accepting(&st)
 }
 
 // State is an automaton configuration with an unbounded stack.
